@@ -77,6 +77,8 @@ def mutate(rng, data):
             return "attr-dup", b"\n".join(lines)
     if op in ("elem-delete", "elem-dup", "elem-swap", "elem-reparent", "elem-rename"):
         spans = []
+        if len(lines) < 3:
+            return "noop", data
         for _ in range(30):
             k = rng.randrange(1, max(2, len(lines) - 1))
             sp = element_span(lines, k)
